@@ -1,39 +1,2 @@
-(* GENERATED by translator/gen.py from src/parser/types.rs - do not edit *)
-From VL Require Import Lib.Bytes Lib.Reg.
-
-Definition as_str_table : list (registry * bytes) :=
-  [ (GitHubActions, [103;105;116;104;117;98;95;97;99;116;105;111;110;115]) (* github_actions *);
-    (Npm, [110;112;109]) (* npm *);
-    (CratesIo, [99;114;97;116;101;115;95;105;111]) (* crates_io *);
-    (GoProxy, [103;111;95;112;114;111;120;121]) (* go_proxy *);
-    (PnpmCatalog, [112;110;112;109;95;99;97;116;97;108;111;103]) (* pnpm_catalog *);
-    (Jsr, [106;115;114]) (* jsr *);
-    (PyPI, [112;121;112;105]) (* pypi *) ].
-
-Definition from_str_table : list (bytes * registry) :=
-  [ ([103;105;116;104;117;98;95;97;99;116;105;111;110;115], GitHubActions) (* github_actions *);
-    ([110;112;109], Npm) (* npm *);
-    ([99;114;97;116;101;115;95;105;111], CratesIo) (* crates_io *);
-    ([103;111;95;112;114;111;120;121], GoProxy) (* go_proxy *);
-    ([112;110;112;109;95;99;97;116;97;108;111;103], PnpmCatalog) (* pnpm_catalog *);
-    ([106;115;114], Jsr) (* jsr *);
-    ([112;121;112;105], PyPI) (* pypi *) ].
-
-Definition detect_suffix_table : list (bytes * registry) :=
-  [ ([47;112;97;99;107;97;103;101;46;106;115;111;110], Npm) (* /package.json *);
-    ([47;67;97;114;103;111;46;116;111;109;108], CratesIo) (* /Cargo.toml *);
-    ([47;103;111;46;109;111;100], GoProxy) (* /go.mod *);
-    ([47;112;110;112;109;45;119;111;114;107;115;112;97;99;101;46;121;97;109;108], PnpmCatalog) (* /pnpm-workspace.yaml *);
-    ([47;100;101;110;111;46;106;115;111;110], Jsr) (* /deno.json *);
-    ([47;100;101;110;111;46;106;115;111;110;99], Jsr) (* /deno.jsonc *);
-    ([47;112;121;112;114;111;106;101;99;116;46;116;111;109;108], PyPI) (* /pyproject.toml *) ].
-
-Definition gha_dirs : list bytes :=
-  [ [46;103;105;116;104;117;98;47;119;111;114;107;102;108;111;119;115;47] (* .github/workflows/ *);
-    [46;103;105;116;104;117;98;92;119;111;114;107;102;108;111;119;115;92] (* .github\workflows\ *);
-    [46;103;105;116;104;117;98;47;97;99;116;105;111;110;115;47] (* .github/actions/ *);
-    [46;103;105;116;104;117;98;92;97;99;116;105;111;110;115;92] (* .github\actions\ *) ].
-
-Definition yaml_suffixes : list bytes :=
-  [ [46;121;109;108] (* .yml *);
-    [46;121;97;109;108] (* .yaml *) ].
+(* translator section detect FAILED: is_github_actions_workflow: shape changed: let is_yaml = uri.ends_with('.yml') || uri.ends_with('.yaml'); is_yaml && in_github_dir(uri) *)
+Definition translator_failed_detect : True := I.
